@@ -114,17 +114,44 @@ impl<'a> CompiledPredicate<'a> {
         self.scalar_subquery_results = results;
     }
 
+    /// A row passes the filter only when the predicate is TRUE under SQL three-valued
+    /// logic (FALSE and NULL both reject it). Expressions this evaluator cannot decide
+    /// keep the row, as before.
     pub fn evaluate(&self, row: &ExecutorRow<'a>) -> bool {
-        self.eval_expr(self.expr, row)
+        !matches!(
+            self.eval_tri(self.expr, row),
+            Some(Some(false)) | Some(None)
+        )
     }
 
-    fn eval_expr(&self, expr: &crate::sql::ast::Expr<'a>, row: &ExecutorRow<'a>) -> bool {
-        use crate::sql::ast::{BinaryOperator, Expr, Literal};
+    /// Three-valued evaluation of a boolean expression: `Some(Some(b))` is TRUE/FALSE,
+    /// `Some(None)` is NULL (unknown) and `None` means the expression is not one this
+    /// evaluator decides.
+    fn eval_tri(
+        &self,
+        expr: &crate::sql::ast::Expr<'a>,
+        row: &ExecutorRow<'a>,
+    ) -> Option<Option<bool>> {
+        use crate::sql::ast::{BinaryOperator, Expr, Literal, UnaryOperator};
 
         match expr {
             Expr::BinaryOp { left, op, right } => match op {
-                BinaryOperator::And => self.eval_expr(left, row) && self.eval_expr(right, row),
-                BinaryOperator::Or => self.eval_expr(left, row) || self.eval_expr(right, row),
+                BinaryOperator::And => {
+                    match (self.eval_tri(left, row), self.eval_tri(right, row)) {
+                        (Some(Some(false)), _) | (_, Some(Some(false))) => Some(Some(false)),
+                        (None, _) | (_, None) => None,
+                        (Some(None), _) | (_, Some(None)) => Some(None),
+                        _ => Some(Some(true)),
+                    }
+                }
+                BinaryOperator::Or => {
+                    match (self.eval_tri(left, row), self.eval_tri(right, row)) {
+                        (Some(Some(true)), _) | (_, Some(Some(true))) => Some(Some(true)),
+                        (None, _) | (_, None) => None,
+                        (Some(None), _) | (_, Some(None)) => Some(None),
+                        _ => Some(Some(false)),
+                    }
+                }
                 BinaryOperator::Eq
                 | BinaryOperator::NotEq
                 | BinaryOperator::Lt
@@ -133,18 +160,31 @@ impl<'a> CompiledPredicate<'a> {
                 | BinaryOperator::GtEq => {
                     let left_val = self.eval_value(left, row);
                     let right_val = self.eval_value(right, row);
-                    self.compare_values(&left_val, &right_val, op)
+                    Some(self.compare_values(&left_val, &right_val, op))
                 }
-                _ => true,
+                _ => None,
             },
-            Expr::Literal(Literal::Boolean(b)) => *b,
+            Expr::UnaryOp {
+                op: UnaryOperator::Not,
+                expr,
+            } => self.eval_tri(expr, row).map(|t| t.map(|b| !b)),
+            Expr::Literal(Literal::Boolean(b)) => Some(Some(*b)),
+            Expr::Literal(Literal::Null) => Some(None),
             Expr::Like { .. } | Expr::Between { .. } | Expr::InList { .. } | Expr::IsNull { .. } => {
-                match self.eval_value(expr, row) {
-                    Some(Value::Int(n)) => n != 0,
-                    _ => false,
-                }
+                Some(match self.eval_value(expr, row) {
+                    Some(Value::Int(n)) => Some(n != 0),
+                    _ => None,
+                })
             }
-            _ => true,
+            _ => None,
+        }
+    }
+
+    fn tri_to_value(t: Option<bool>) -> Value<'a> {
+        match t {
+            Some(true) => Value::Int(1),
+            Some(false) => Value::Int(0),
+            None => Value::Null,
         }
     }
 
@@ -214,13 +254,20 @@ impl<'a> CompiledPredicate<'a> {
             } => {
                 let target_val = self.eval_value(expr, row)?;
                 let mut found = false;
+                let mut saw_null = false;
                 for list_item in list.iter() {
-                    if let Some(list_val) = self.eval_value(list_item, row) {
-                        if self.values_equal(&target_val, &list_val) {
-                            found = true;
-                            break;
+                    match self.eval_value(list_item, row) {
+                        Some(Value::Null) | None => saw_null = true,
+                        Some(list_val) => {
+                            if self.values_equal(&target_val, &list_val) {
+                                found = true;
+                                break;
+                            }
                         }
                     }
+                }
+                if matches!(target_val, Value::Null) || (!found && saw_null) {
+                    return Some(Value::Null);
                 }
                 let result = if *negated { !found } else { found };
                 Some(Value::Int(if result { 1 } else { 0 }))
@@ -234,14 +281,22 @@ impl<'a> CompiledPredicate<'a> {
                 let val = self.eval_value(expr, row)?;
                 let low_val = self.eval_value(low, row)?;
                 let high_val = self.eval_value(high, row)?;
-                let in_range = self
+                let ge_low = self
                     .value_cmp(&val, &low_val)
-                    .is_some_and(|o| o != std::cmp::Ordering::Less)
-                    && self
-                        .value_cmp(&val, &high_val)
-                        .is_some_and(|o| o != std::cmp::Ordering::Greater);
-                let result = if *negated { !in_range } else { in_range };
-                Some(Value::Int(if result { 1 } else { 0 }))
+                    .map(|o| o != std::cmp::Ordering::Less);
+                let le_high = self
+                    .value_cmp(&val, &high_val)
+                    .map(|o| o != std::cmp::Ordering::Greater);
+                let in_range = match (ge_low, le_high) {
+                    (Some(false), _) | (_, Some(false)) => Some(false),
+                    (Some(true), Some(true)) => Some(true),
+                    _ => None,
+                };
+                Some(Self::tri_to_value(if *negated {
+                    in_range.map(|b| !b)
+                } else {
+                    in_range
+                }))
             }
             Expr::Like {
                 expr,
@@ -253,6 +308,7 @@ impl<'a> CompiledPredicate<'a> {
                 let val = self.eval_value(expr, row)?;
                 let pat = self.eval_value(pattern, row)?;
                 let matches = match (&val, &pat) {
+                    (Value::Null, _) | (_, Value::Null) => return Some(Value::Null),
                     (Value::Text(s), Value::Text(p)) => self.like_match(s, p, *case_insensitive),
                     _ => false,
                 };
@@ -1116,18 +1172,29 @@ impl<'a> CompiledPredicate<'a> {
             | BinaryOperator::Gt
             | BinaryOperator::GtEq => {
                 let result = self.compare_values(&Some(left.clone()), &Some(right.clone()), op);
-                Some(Value::Int(if result { 1 } else { 0 }))
+                Some(Self::tri_to_value(result))
             }
-            BinaryOperator::And => {
-                let l = self.value_to_bool(left);
-                let r = self.value_to_bool(right);
-                Some(Value::Int(if l && r { 1 } else { 0 }))
-            }
-            BinaryOperator::Or => {
-                let l = self.value_to_bool(left);
-                let r = self.value_to_bool(right);
-                Some(Value::Int(if l || r { 1 } else { 0 }))
-            }
+            BinaryOperator::And => Some(Self::tri_to_value(
+                match (self.value_to_tri(left), self.value_to_tri(right)) {
+                    (Some(false), _) | (_, Some(false)) => Some(false),
+                    (Some(true), Some(true)) => Some(true),
+                    _ => None,
+                },
+            )),
+            BinaryOperator::Or => Some(Self::tri_to_value(
+                match (self.value_to_tri(left), self.value_to_tri(right)) {
+                    (Some(true), _) | (_, Some(true)) => Some(true),
+                    (Some(false), Some(false)) => Some(false),
+                    _ => None,
+                },
+            )),
+        }
+    }
+
+    fn value_to_tri(&self, val: &Value<'a>) -> Option<bool> {
+        match val {
+            Value::Null => None,
+            v => Some(self.value_to_bool(v)),
         }
     }
 
@@ -1727,22 +1794,23 @@ impl<'a> CompiledPredicate<'a> {
         }
     }
 
+    /// SQL comparison: NULL (or an operand that could not be evaluated) on either side
+    /// makes the result NULL, as does a pair of values that cannot be ordered.
     fn compare_values(
         &self,
         left: &Option<Value<'a>>,
         right: &Option<Value<'a>>,
         op: &crate::sql::ast::BinaryOperator,
-    ) -> bool {
+    ) -> Option<bool> {
         use crate::sql::ast::BinaryOperator;
         use std::cmp::Ordering;
 
         let (l, r) = match (left, right) {
             (Some(l), Some(r)) => (l, r),
-            _ => return false,
+            _ => return None,
         };
 
         let ordering = match (l, r) {
-            (Value::Null, Value::Null) => Some(Ordering::Equal),
             (Value::Null, _) | (_, Value::Null) => None,
             (Value::Int(a), Value::Int(b)) => Some(a.cmp(b)),
             (Value::Int(a), Value::Float(b)) => (*a as f64).partial_cmp(b),
@@ -1750,20 +1818,17 @@ impl<'a> CompiledPredicate<'a> {
             (Value::Float(a), Value::Float(b)) => a.partial_cmp(b),
             (Value::Text(a), Value::Text(b)) => Some(a.cmp(b)),
             _ => None,
-        };
+        }?;
 
-        match (ordering, op) {
-            (Some(Ordering::Equal), BinaryOperator::Eq) => true,
-            (Some(Ordering::Equal), BinaryOperator::NotEq) => false,
-            (Some(o), BinaryOperator::NotEq) if o != Ordering::Equal => true,
-            (Some(Ordering::Less), BinaryOperator::Lt) => true,
-            (Some(Ordering::Less), BinaryOperator::LtEq) => true,
-            (Some(Ordering::Equal), BinaryOperator::LtEq) => true,
-            (Some(Ordering::Greater), BinaryOperator::Gt) => true,
-            (Some(Ordering::Greater), BinaryOperator::GtEq) => true,
-            (Some(Ordering::Equal), BinaryOperator::GtEq) => true,
+        Some(match op {
+            BinaryOperator::Eq => ordering == Ordering::Equal,
+            BinaryOperator::NotEq => ordering != Ordering::Equal,
+            BinaryOperator::Lt => ordering == Ordering::Less,
+            BinaryOperator::LtEq => ordering != Ordering::Greater,
+            BinaryOperator::Gt => ordering == Ordering::Greater,
+            BinaryOperator::GtEq => ordering != Ordering::Less,
             _ => false,
-        }
+        })
     }
 
     pub fn evaluate_to_value(&self, row: &ExecutorRow<'a>) -> Option<Value<'a>> {
